@@ -416,6 +416,16 @@ func runC09(c *core.Ctx) core.Meta {
 			for _, what := range sortedKeys(cuts) {
 				st4.Instances++
 				ok := g.Guarded(r, cuts[what])
+				if !ok && what == "completed >= dispatched" {
+					// `return completed >= dispatched` establishes the conjunct by returning it
+					if bo, isB := ret.Results[0].(*ssa.BinOp); isB {
+						px, py := prov.Of(bo.X), prov.Of(bo.Y)
+						if (px == "recv.numCompletedWGs" && py == "recv.numDispatchedWGs" && (bo.Op == token.GEQ || bo.Op == token.EQL)) ||
+							(py == "recv.numCompletedWGs" && px == "recv.numDispatchedWGs" && bo.Op == token.LEQ) {
+							ok = true
+						}
+					}
+				}
 				st4.Ob(ok)
 				st4.Sample("kernelCompleted: return true guarded by %s: %v", what, ok)
 				if !ok {
